@@ -379,6 +379,9 @@ func (in *Interp) readCell(c *Cell) V {
 func (in *Interp) writeCell(c *Cell, v V) {
 	in.noteAccess(c, true)
 	if c.Kids == nil {
+		if in.trailOn && (c.ID <= in.baseCellID || c.ID >= 1<<40) {
+			in.noteSharedWrite(c)
+		}
 		if isComposite(c.T) {
 			return // zero-size
 		}
@@ -403,6 +406,29 @@ func (in *Interp) writeCell(c *Cell, v V) {
 }
 
 // writeLeaf stores into a leaf cell (trail-logged).
+// noteSharedWrite records a write, performed by golua code while a harness
+// runs, to a cell that already existed when the harness started (package-level
+// state or something reachable from it): shared mutable state (C20).
+func (in *Interp) noteSharedWrite(c *Cell) {
+	fr := in.curFrame
+	if fr == nil || fr.fn.Pkg == nil {
+		return
+	}
+	path := fr.fn.Pkg.Pkg.Path()
+	if len(path) < len(RepoModule) || path[:len(RepoModule)] != RepoModule {
+		return
+	}
+	name := fr.fn.Name()
+	if len(name) > 5 && (name[:5] == "Verif" || name[:5] == "verif" || name[:2] == "vh") {
+		return // the harness itself
+	}
+	top := c
+	for top.Parent != nil {
+		top = top.Parent
+	}
+	in.SharedWrites = append(in.SharedWrites, fr.fn.String()+" writes "+top.Tag)
+}
+
 func (in *Interp) writeLeaf(c *Cell, v V) {
 	in.noteAccess(c, true)
 	if in.trailOn {
